@@ -6,7 +6,7 @@
 
 use crate::harness::*;
 use crate::model::keyspace::*;
-use crate::model::stream::StreamM;
+use crate::model::stream::{GroupM, PelE, StreamM};
 use crate::resp::R;
 use crate::scenario::*;
 use crate::sim::*;
@@ -59,7 +59,9 @@ pub fn key_args<'a>(verb: &str, args: &'a [Vec<u8>]) -> Vec<&'a Vec<u8>> {
     }
 }
 
-pub fn from_dump(entries: &[DumpEntry], now: u64) -> Db {
+pub fn from_dump(entries: &[DumpEntry], now: u64) -> Db { from_dump_real(entries, now, 0) }
+
+pub fn from_dump_real(entries: &[DumpEntry], now: u64, real_off: i64) -> Db {
     let mut db = Db::default();
     for e in entries {
         let val = match &e.value {
@@ -69,11 +71,21 @@ pub fn from_dump(entries: &[DumpEntry], now: u64) -> Db {
             DumpValue::Hash(h) => Val::Hash(h.iter().cloned().collect::<BTreeMap<_, _>>()),
             DumpValue::ZSet(z) => Val::ZSet(z.iter().cloned().collect::<BTreeMap<_, _>>()),
             DumpValue::ZSetBroken(_) => Val::ZSet(BTreeMap::new()),
-            DumpValue::Stream { entries, last_id } => {
+            DumpValue::Stream { entries, last_id, groups, .. } => {
                 let mut s = StreamM::default();
                 for (id, f) in entries { s.entries.insert(*id, f.clone()); }
                 s.last_id = *last_id;
                 s.max_ever = (*last_id).max(s.entries.keys().next_back().copied().unwrap_or((0, 0)));
+                let real_ns = now as i128 + real_off as i128;
+                for g in groups {
+                    let mut gm = GroupM::default();
+                    if let Ok(st) = &g.state {
+                        gm.last_delivered = st.last_delivered;
+                        for (id, c, n, age) in &st.pending { gm.pel.insert(*id, PelE { consumer: c.clone().into_bytes(), count: *n as u64, last_delivery: real_ns - *age }); }
+                        for (c, _) in &st.consumers { gm.consumers.insert(c.clone().into_bytes()); }
+                    }
+                    s.groups.insert(g.name.clone().into_bytes(), gm);
+                }
                 Val::Stream(s)
             }
         };
@@ -112,7 +124,8 @@ impl Seq {
     pub fn resync(&mut self) {
         let now = self.h.sim.now();
         let storage = self.h.sim.instances[self.h.inst].storage.clone();
-        for db in 0..16 { self.model.dbs[db] = from_dump(&storage.verif_dump(db), now); }
+        let off = self.h.sim.real_off();
+        for db in 0..16 { self.model.dbs[db] = from_dump_real(&storage.verif_dump(db), now, off); }
         self.h.count("resyncs", 1);
     }
 
@@ -229,9 +242,12 @@ impl Seq {
             }
             return Some(reply);
         }
+        self.model.real_off = self.h.sim.real_off();
+        self.model.soft_resync = false;
         match self.model.apply(db, args, now, &reply) {
             Ok(true) => {
-                if self.compare_dumps { self.compare_dump(&verb, ktype, &flags, args); }
+                if self.model.soft_resync { self.model.soft_resync = false; self.h.count("version_dependent_outcome_followed", 1); self.resync(); }
+                else if self.compare_dumps { self.compare_dump(&verb, ktype, &flags, args); }
             }
             Ok(false) => { self.h.count("unmodelled", 1); self.resync(); }
             Err(m) => {
@@ -275,9 +291,8 @@ impl Seq {
                         }
                         if let Some(v) = val_of_dump(&e.value) {
                             if v != m.val { bad = Some((format!("value-differs/{}", m.val.type_name()), format!("db{} key {}: stored {:?}, model {:?}", db, esc(&e.key), trunc(&format!("{:?}", e.value)), trunc(&format!("{:?}", m.val))))); break 'outer; }
-                        } else if let (DumpValue::Stream { entries, .. }, Val::Stream(sm)) = (&e.value, &m.val) {
-                            let me: Vec<((u64, u64), Vec<(Vec<u8>, Vec<u8>)>)> = sm.entries.iter().map(|(k, f)| { let mut f = f.clone(); f.sort(); (*k, f) }).collect();
-                            if &me != entries { bad = Some(("value-differs/stream".into(), format!("db{} key {}: stored {} entries, model {}", db, esc(&e.key), entries.len(), me.len()))); break 'outer; }
+                        } else if let (DumpValue::Stream { .. }, Val::Stream(sm)) = (&e.value, &m.val) {
+                            if let Some((k, d)) = stream_diff(&e.value, sm) { bad = Some((k, format!("db{} key {}: {}", db, esc(&e.key), d))); break 'outer; }
                         } else { bad = Some((format!("type-differs/{}", m.val.type_name()), format!("db{} key {}", db, esc(&e.key)))); break 'outer; }
                         let impl_dl = e.ttl_ns.map(|t| abs_deadline(now, t));
                         let far = now.saturating_add(100_000_000_000_000_000);
@@ -302,7 +317,7 @@ impl Seq {
         if tie_resync && bad.is_none() { self.h.count("deadline_tie_dont_care", 1); self.resync(); return; }
         if let Some((kind, detail)) = bad {
             // a broken skip list stays broken: attribute it to the structure, not to whichever verb came last
-            let class = if kind == "skiplist-invariant" { format!("{}/skiplist-invariant", self.prop) } else { format!("{}/dump/{}/{}/{}", self.prop, verb, flags, kind) };
+            let class = if kind == "skiplist-invariant" { format!("{}/skiplist-invariant", self.prop) } else if kind == "group-indexes-disagree" { format!("{}/group-indexes-disagree", self.prop) } else { format!("{}/dump/{}/{}/{}", self.prop, verb, flags, kind) };
             self.h.violate(class, format!("after `{}` (key type before: {}): {}", show_cmd(args), ktype, detail));
             self.resync();
         }
@@ -315,6 +330,36 @@ impl Seq {
         self.h.state_hashes.push(sh);
         self.h.finish(seed)
     }
+}
+
+/// Compare one stored stream (entry log, duplicated counters, consumer groups) with the model.
+pub fn stream_diff(v: &DumpValue, sm: &StreamM) -> Option<(String, String)> {
+    let (entries, last_id, length_counter, last_id_counter, groups) = match v { DumpValue::Stream { entries, last_id, length_counter, last_id_counter, groups } => (entries, last_id, length_counter, last_id_counter, groups), _ => return None };
+    let me: Vec<((u64, u64), Vec<(Vec<u8>, Vec<u8>)>)> = sm.entries.iter().map(|(k, f)| { let mut f = f.clone(); f.sort(); (*k, f) }).collect();
+    if &me != entries {
+        let ids_same = me.len() == entries.len() && me.iter().zip(entries.iter()).all(|(a, b)| a.0 == b.0);
+        return Some((if ids_same { "stream-fields-differ".into() } else { "value-differs/stream".into() }, format!("stored {} entries {:?}, model {} entries {:?}", entries.len(), entries.iter().map(|e| e.0).take(6).collect::<Vec<_>>(), me.len(), me.iter().map(|e| e.0).take(6).collect::<Vec<_>>())));
+    }
+    if entries.windows(2).any(|w| w[0].0 >= w[1].0) { return Some(("stream-not-sorted".into(), "stored entries are not in strictly increasing id order".into())); }
+    if *last_id != sm.last_id { return Some(("stream-last-id".into(), format!("stored last id {:?}, model {:?}", last_id, sm.last_id))); }
+    if *length_counter != entries.len() { return Some(("stream-length-counter".into(), format!("length counter {} but {} entries stored", length_counter, entries.len()))); }
+    if last_id_counter != last_id { return Some(("stream-last-id-counter".into(), format!("lock-free last id {:?} but the entry log records {:?}", last_id_counter, last_id))); }
+    for g in groups {
+        let name = g.name.clone().into_bytes();
+        let st = match &g.state { Err(e) => return Some(("group-indexes-disagree".into(), format!("group {}: {}", g.name, e))), Ok(st) => st };
+        let gm = match sm.groups.get(&name) { None => return Some(("group-extra".into(), format!("group {} stored, absent in the model", g.name))), Some(gm) => gm };
+        let got: Vec<((u64, u64), Vec<u8>)> = st.pending.iter().map(|(id, c, _, _)| (*id, c.clone().into_bytes())).collect();
+        let want: Vec<((u64, u64), Vec<u8>)> = gm.pel.iter().map(|(id, e)| (*id, e.consumer.clone())).collect();
+        if got != want { return Some(("group-pending-differs".into(), format!("group {}: stored pending {:?}, model {:?}", g.name, got.iter().take(6).map(|(i, c)| (*i, esc(c))).collect::<Vec<_>>(), want.iter().take(6).map(|(i, c)| (*i, esc(c))).collect::<Vec<_>>()))); }
+        let (a, b) = (st.last_delivered.min(gm.last_delivered), st.last_delivered.max(gm.last_delivered));
+        if a != b {
+            // two cursors are equivalent when no present or future entry can lie between them
+            let equivalent = b <= sm.last_id && !sm.entries.keys().any(|k| *k > a && *k <= b);
+            if !equivalent { return Some(("group-cursor-differs".into(), format!("group {}: stored cursor {:?}, model {:?}", g.name, st.last_delivered, gm.last_delivered))); }
+        }
+    }
+    for name in sm.groups.keys() { if !groups.iter().any(|g| g.name.as_bytes() == name.as_slice()) { return Some(("group-missing".into(), format!("group {} absent from storage", esc(name)))); } }
+    None
 }
 
 fn trunc(s: &str) -> String { if s.len() > 160 { format!("{}...", &s[..160]) } else { s.to_string() } }
